@@ -1055,3 +1055,12 @@ m('c11-cbrt-exact-flag-square', ['C11'], 'root-shape[exact-flag]', [
 m('c11-cbrt-exact-flag-negated', ['C11'], 'root-shape[exact-flag]', [
   ('src/arithmetic/cbrt.rs', """root_digits.pow(3u32) == *integer_digits""", """root_digits.pow(3u32) != *integer_digits""")],
   'exactness test negated')
+m('c04-sci-zero-literal-original', ['C04'], 'point-and-exponent[zero]', [
+  ('src/impl_fmt.rs', """pub(crate) fn write_scientific_notation<W: Write>(n: &BigDecimal, w: &mut W) -> fmt::Result {
+""", """pub(crate) fn write_scientific_notation<W: Write>(n: &BigDecimal, w: &mut W) -> fmt::Result {
+    if n.is_zero() {
+        return w.write_str("0e0");
+    }
+
+""")],
+  'the original: every zero written as "0e0" in scientific notation (fixed in 8616111)')
